@@ -268,3 +268,41 @@ package compose
 //@   requires i != nil && i.origError != nil
 //@   loop 1:
 //@     invariant[idx] 0 <= j
+
+// ---------------------------------------------------------------------------------------------------
+// checkpoint.go — context plumbing for checkpoints and node paths (C05, C16)
+// ---------------------------------------------------------------------------------------------------
+
+//@ spec cpOf(ctx context.Context) *checkpoint = is(ctxValue(ctx, "checkPointKey"), "*checkpoint") ? unbox(ctxValue(ctx, "checkPointKey"), "*checkpoint") : nil
+//@ spec pathOf(ctx context.Context) *NodePath = is(ctxValue(ctx, "nodePathKey"), "*NodePath") ? unbox(ctxValue(ctx, "nodePathKey"), "*NodePath") : nil
+
+//@ func getCheckPointFromCtx
+//@   props C05
+//@   ensures[value] result == cpOf(ctx)
+
+//@ func setCheckPointToCtx
+//@   props C05
+//@   ensures[set] cpOf(result) == cp && fresh(result)
+//@   ensures[others] pathOf(result) == pathOf(ctx) && ctxValue(result, "stateKey") == ctxValue(ctx, "stateKey")
+
+//@ func forwardCheckPoint
+//@   props C05
+//@   ensures[none] cpOf(ctx) == nil ==> result == ctx
+//@   ensures[sub] cpOf(ctx) != nil && in(nodeKey, cpOf(ctx).SubGraphs) ==> cpOf(result) == cpOf(ctx).SubGraphs[nodeKey]
+//@   ensures[clear] cpOf(ctx) != nil && !in(nodeKey, cpOf(ctx).SubGraphs) ==> cpOf(result) == nil
+//@   ensures[others] pathOf(result) == pathOf(ctx) && ctxValue(result, "stateKey") == ctxValue(ctx, "stateKey")
+
+//@ func getNodeKey
+//@   props C05 C16
+//@   ensures[value] result0 == pathOf(ctx) && result1 == is(ctxValue(ctx, "nodePathKey"), "*NodePath")
+
+//@ func NewNodePath
+//@   props C16
+//@   ensures[fresh] result != nil && fresh(result) && len(result.path) == len(path) && forall(i int :: 0 <= i && i < len(path) ==> result.path[i] == path[i])
+
+//@ func setNodeKey
+//@   props C05 C09 C16
+//@   requires is(ctxValue(ctx, "nodePathKey"), "*NodePath") ==> pathOf(ctx) != nil
+//@   ensures[path] pathOf(result) != nil && fresh(pathOf(result)) && len(pathOf(result).path) >= 1 && pathOf(result).path[len(pathOf(result).path) - 1] == key
+//@   ensures[others] cpOf(result) == cpOf(ctx) && ctxValue(result, "stateKey") == ctxValue(ctx, "stateKey")
+//@   ensures[parent_path_untouched] pathOf(ctx) != nil ==> forall(i int :: 0 <= i && i < cap(pathOf(ctx).path) ==> mem(pathOf(ctx).path, i) == old(mem(pathOf(ctx).path, i)))
